@@ -324,6 +324,11 @@ Theorem C20_not_fn_static : forall v, notfn_static_m v = notfn_static_spec v.
 Proof. exact notfn_static_agree. Qed.
 Print Assumptions C20_not_fn_static.
 
+(* copying / moving bind_front and not_fn wrappers (value script of op wrapcopy; the content is the harness comparison) *)
+Theorem C20_wrapper_copies_hold_equivalent_targets : forall x y, wrapcopy_m x y = wrapcopy_spec x y.
+Proof. exact wrapcopy_agrees. Qed.
+Print Assumptions C20_wrapper_copies_hold_equivalent_targets.
+
 Theorem C20_make_pair_member_types : forall w, make_pair_member_m w = make_pair_member_spec w.
 Proof. exact make_pair_member_agree. Qed.
 Print Assumptions C20_make_pair_member_types.
